@@ -83,6 +83,65 @@ theorem format_idem_text (t : PExp) (h : WF t) (ht : TextOK t) :
     ∃ t', parseText (fmtExp t).toList = .ok t' ∧ fmtExp t' = fmtExp t :=
   ⟨t, parse_format_text t h ht, rfl⟩
 
+/-! ### the decimal grammar of number tokens
+
+`Display for Primitive::Number` (after c69442f / 8a8f98f) writes a finite number either as a digit string `ddd` or as
+`ddd.ddd` — never with an exponent or a sign.  For EVERY text of this decimal grammar the lexer model reads exactly
+one number token, and the parser model reads that token back as the literal: the half of `NumTokenOk` that is
+about the grammar is a theorem; that Rust's printer stays inside this grammar and that the text denotes the same
+`f64` is checked by the harness on every literal. -/
+
+/-- the decimal grammar of printed numbers: digits, or digits `.` digits -/
+def DecimalText (s : String) : Prop :=
+  (s.toList ≠ [] ∧ ∀ d ∈ s.toList, isDigit d = true) ∨ FloatParts s
+
+/-- the token a decimal text is read as -/
+def numToken (s : String) : Tok := if s.toList.all isDigit then .int s else .float s
+
+/-- **every text of the decimal grammar is one number token** -/
+theorem decimal_text_is_one_token (s : String) (h : DecimalText s) : lex s.toList = .ok [numToken s] := by
+  rcases h with ⟨hne, hd⟩ | ⟨ds, fs, hs, hne, hnf, hds, hfs⟩
+  · have hall : s.toList.all isDigit = true := by simpa [List.all_eq_true] using hd
+    have := lexTo_int s.toList [] false [] hne hd (Or.inl rfl)
+    have h2 := lex_of_lexTo (by simpa using this)
+    simpa [numToken, hall] using h2
+  · have hnot : s.toList.all isDigit = false := by
+      rw [hs]
+      simp only [List.all_append, List.all_cons, Bool.and_eq_false_iff]
+      right; left; decide
+    have := lexTo_float ds fs [] false [] hne hnf hds hfs (Or.inl rfl)
+    simp only [List.append_nil] at this
+    have h2 := lex_of_lexTo this
+    have hs' : String.ofList (ds ++ '.' :: fs) = s := by rw [← hs]; simp
+    rw [hs'] at h2
+    rw [hs]
+    simpa [numToken, hnot] using h2
+
+/-- … and the parser model reads the token back as the literal it is: the integer (if it fits `i64`) or the decimal -/
+theorem decimal_text_parses (s : String) (h : DecimalText s) :
+    parseText s.toList = (if s.toList.all isDigit then
+        (if digitsToNat s.toList ≤ i64Max then .ok (.int (digitsToNat s.toList)) else .err .reject)
+      else .ok (.num s)) := by
+  simp only [parseText, decimal_text_is_one_token s h, numToken]
+  by_cases hall : s.toList.all isDigit = true
+  · simp only [hall, if_true]
+    by_cases hle : digitsToNat s.toList ≤ i64Max
+    · simp only [hle, if_true]
+      rw [parse_tk (Tk.atom (Atom.int s hle))]
+    · simp only [hle, if_false]
+      have hraw : parseToksRaw [Tok.int s] = .ok (.int (digitsToNat s.toList)) := by
+        have hl : leaf 14 [Tok.int s] = .ok (.int (digitsToNat s.toList), []) := by
+          rw [leaf_int]
+          apply imul_single 12 _ _ _ _ (optVariable_follow (Or.inl rfl) 11)
+          rw [atoms_int 11 s [] []]
+          exact atoms_follow (Or.inl rfl) 10 _
+        have hu : optUnary [Tok.int s] = ([], [Tok.int s]) := optUnary_plain (by simp [unRule, ruleOfTok, Tok.opSpelling]) []
+        simp [parseToksRaw, parseFuel, parseExp, collect, hu, hl, collectLoop, prattParse, expr, nud, loop, lbp]
+      simp [parseToks, hraw, buildErr, hle]
+  · have hf : s.toList.all isDigit = false := by simpa using hall
+    simp only [hf, Bool.false_eq_true, if_false]
+    rw [parse_tk (Tk.atom (Atom.num s))]
+
 /-! ### whole programs of the printable fragment
 
 `parseProgram` is the program-level parser model (`Rooc/Syntax/Program.lean`: PEG phase, then the AST builders
